@@ -13,6 +13,7 @@
      add <wA> <wB> <cdA> <cdB>      -> add_compound_data; cd = nAll;molar;Z:n:f,Z:n:f,...   (decimal text)
      z2s <Z>                        -> AtomicNumberToSymbol
      s2z <string>                   -> SymbolToAtomicNumber
+     s2znull                        -> SymbolToAtomicNumber(NULL)
    Answers:
      ok n=<k> Z:<nAtoms>:<frac> ... all=<nAtomsAll> mm=<molarMass> live=<after call>,<after free> loc=<before>,<after>
      err <code> <message %-escaped> live=<after call>,<after call> loc=<before>,<after>
@@ -170,6 +171,12 @@ int main(void) {
       int z = SymbolToAtomicNumber(unesc(tok[1], buf), &e);
       if (z) { printf("ok %d", z); if (e) { printf(" SPURIOUS-ERROR"); xrl_clear_error(&e); } }
       else pr_err(&e);
+      printf(" live=%ld,%ld\n", live_blocks - base, live_blocks - base);
+    }
+    else if (!strcmp(tok[0], "s2znull") && nt == 1) {
+      xrl_error *e = NULL; long base = live_blocks;
+      int z = SymbolToAtomicNumber(NULL, &e);
+      if (z) printf("ok %d", z); else pr_err(&e);
       printf(" live=%ld,%ld\n", live_blocks - base, live_blocks - base);
     }
     else printf("bad-op\n");
